@@ -5,7 +5,7 @@
    plain decimal (strtoul accepts more), and bus-name values that begin with ':'
    without being well-formed unique names (finding F2 of C16). *)
 From DV Require Import Lib.Base Match.Rule Match.Matcher Spec.MatchSpec Proofs.NamesProofs
-  Proofs.MatchRecipients Proofs.MatchSemantics Proofs.MatchHistory.
+  Proofs.MatchRecipients Proofs.MatchSemantics Proofs.MatchHistory Proofs.MatchTokenize.
 From Coq Require Import ZArith ZifyBool ZifyN ZifyNat.
 Local Open Scope N_scope.
 
@@ -242,7 +242,7 @@ Proof.
   assert (Hpos : 1 <= nlen rest) by (subst; unfold nlen; simpl length; lia).
   clear Erest c0 rest0.
   set (key := S_arg ++ rest) in *.
-  unfold parse_arg_match, spec_arg_key.
+  unfold parse_arg_match, spec_arg_key. rewrite max_arg_eq.
   assert (Hpre : is_prefix S_arg key = true) by (apply is_prefix_iff; exists rest; reflexivity).
   rewrite Hpre. cbn [negb]. change (skipn 3 key) with rest.
   assert (Hlen : nlen key = 3 + nlen rest) by (unfold key; rewrite nlen_app; reflexivity).
@@ -258,17 +258,17 @@ Proof.
     destruct Hpu as [-> ->].
     destruct (2 <? nlen d) eqn:Elong.
     + (* three or more digits: the value exceeds 63 whatever follows *)
-      assert (Hbig : DBUS_MAXIMUM_MATCH_RULE_ARG_NUMBER <? dec_value d 0 = true).
+      assert (Hbig : SPEC_MAX_ARG <? dec_value d 0 = true).
       { destruct (canonical_first d Hcan) as [->|[c [rr [-> Hc]]]]; [unfold nlen in Elong; simpl in Elong; lia|].
         destruct rr as [|c2 [|c3 r']]; try (unfold nlen in Elong; simpl in Elong; lia).
         cbn [forallb] in Hd. apply andb_true_iff in Hd. destruct Hd as [H1 Hd]. apply andb_true_iff in Hd. destruct Hd as [H2 Hd].
         apply andb_true_iff in Hd. destruct Hd as [H3 Hd].
         pose proof (digit_range c H1). pose proof (digit_range c2 H2). pose proof (digit_range c3 H3).
         cbn [dec_value]. pose proof (dec_value_mono r' (((0 * 10 + (c - 48)) * 10 + (c2 - 48)) * 10 + (c3 - 48)) Hd).
-        unfold DBUS_MAXIMUM_MATCH_RULE_ARG_NUMBER. lia. }
+        unfold SPEC_MAX_ARG. lia. }
       match goal with |- match ?K with Some _ => _ | None => None end = None => destruct K end; [|reflexivity].
       rewrite Hbig. reflexivity.
-    + destruct (DBUS_MAXIMUM_MATCH_RULE_ARG_NUMBER <? dec_value d 0) eqn:Ebig.
+    + destruct (SPEC_MAX_ARG <? dec_value d 0) eqn:Ebig.
       { match goal with |- match ?K with Some _ => _ | None => None end = None => destruct K end; reflexivity. }
       (* the suffix decides the kind *)
       destruct suffix as [|s0 suffix'].
@@ -489,8 +489,8 @@ Proof.
     + intros [H|[H|[[y [E ->]]|H]]]; try (inversion E; auto); right; tauto.
     + intros [->|H]; [right; right; left; eauto|].
       destruct H as [H|[H|[[y [E _]]|H]]]; try discriminate; tauto.
-  - destruct (r_path r); [discriminate|]. simpl. tauto.
-  - destruct (r_path r); [discriminate|]. simpl. tauto.
+  - destruct (r_path r); [discriminate|]. simpl. assert (CPath s = x <-> x = CPath s) by (split; congruence). tauto.
+  - destruct (r_path r); [discriminate|]. simpl. assert (CPathNs s = x <-> x = CPathNs s) by (split; congruence). tauto.
   - destruct (r_dest r); [discriminate|]. simpl. split.
     + intros [H|[H|[H|[H|[[y [E ->]]|H]]]]]; try (inversion E; auto); right; tauto.
     + intros [->|H]; [right; right; right; right; left; eauto|].
@@ -504,3 +504,160 @@ Qed.
 
 Lemma cons_set_eaves r b : sr_cons (abs_rule (set_eaves r b)) = sr_cons (abs_rule r).
 Proof. reflexivity. Qed.
+
+(* ---- the whole item list ------------------------------------------------------------------------------- *)
+Definition item_valid (t : token) : bool := match item_meaning_of t with IBad => false | _ => true end.
+
+Lemma constraints_of_cons t ts :
+  constraints_of (t :: ts) = match item_meaning_of t with ICons c => c :: constraints_of ts | _ => constraints_of ts end.
+Proof. reflexivity. Qed.
+
+Lemma eaves_of_cons t ts cur :
+  eaves_of (t :: ts) cur = match item_meaning_of t with IEaves b => eaves_of ts b | _ => eaves_of ts cur end.
+Proof. reflexivity. Qed.
+
+Lemma existsb_keyclass k l : existsb (keyclass_eqb k) l = true <-> In k l.
+Proof.
+  rewrite existsb_exists. split.
+  - intros [x [Hin E]]. apply keyclass_eqb_eq in E. now subst.
+  - intros H. exists k. split; [assumption | now apply keyclass_eqb_eq].
+Qed.
+
+Lemma add_cons_eaves r c : r_eaves (add_cons r c) = r_eaves r.
+Proof. destruct c; reflexivity. Qed.
+Lemma add_cons_owner r c : r_owner (add_cons r c) = r_owner r.
+Proof. destruct c; reflexivity. Qed.
+
+Lemma fold_spec_inv : forall ts r,
+  match fold_spec r ts with
+  | Some r' =>
+      forallb item_valid ts = true /\
+      classes_distinct (map class_of (constraints_of ts)) = true /\
+      (forall c, In c (constraints_of ts) -> occupied r (class_of c) = false) /\
+      r_eaves r' = eaves_of ts (r_eaves r) /\ r_owner r' = r_owner r /\
+      (forall k, occupied r' k = occupied r k || existsb (keyclass_eqb k) (map class_of (constraints_of ts))) /\
+      (forall x, In x (sr_cons (abs_rule r')) <-> In x (sr_cons (abs_rule r)) \/ In x (constraints_of ts))
+  | None =>
+      forallb item_valid ts = false \/
+      classes_distinct (map class_of (constraints_of ts)) = false \/
+      (exists c, In c (constraints_of ts) /\ occupied r (class_of c) = true)
+  end.
+Proof.
+  induction ts as [|t ts IH]; intros r.
+  - cbn [fold_spec constraints_of eaves_of forallb map classes_distinct existsb].
+    split; [reflexivity|]. split; [reflexivity|]. split; [intros c []|]. split; [reflexivity|]. split; [reflexivity|]. split.
+    + intros k. now rewrite orb_false_r.
+    + intros x. simpl. tauto.
+  - cbn [fold_spec]. unfold step_spec. rewrite constraints_of_cons, eaves_of_cons.
+    cbn [forallb]. unfold item_valid at 1 3.
+    destruct (item_meaning_of t) as [|b|c] eqn:Em.
+    + left. reflexivity.
+    + (* eavesdrop item *)
+      specialize (IH (set_eaves r b)).
+      destruct (fold_spec (set_eaves r b) ts) as [r'|].
+      * destruct IH as (I1 & I2 & I3 & I4 & I5 & I6 & I7).
+        split; [exact I1|]. split; [exact I2|]. split.
+        { intros c Hc. rewrite <- (occupied_set_eaves r b). auto. }
+        split; [exact I4|]. split; [exact I5|]. split.
+        { intros k. rewrite I6, occupied_set_eaves. reflexivity. }
+        intros x. rewrite I7, cons_set_eaves. tauto.
+      * destruct IH as [I|[I|[c [I1 I2]]]]; auto.
+        right. right. exists c. rewrite occupied_set_eaves in I2. auto.
+    + (* a constraint *)
+      destruct (occupied r (class_of c)) eqn:Eo.
+      * right. right. exists c. split; [now left | assumption].
+      * specialize (IH (add_cons r c)).
+        destruct (fold_spec (add_cons r c) ts) as [r'|].
+        -- destruct IH as (I1 & I2 & I3 & I4 & I5 & I6 & I7).
+           split; [exact I1|]. split.
+           { cbn [map classes_distinct]. rewrite I2, andb_true_r. apply negb_true_iff.
+             destruct (existsb (keyclass_eqb (class_of c)) (map class_of (constraints_of ts))) eqn:Ex; [|reflexivity].
+             apply existsb_keyclass in Ex. apply in_map_iff in Ex. destruct Ex as [c' [Ec' Hc']].
+             specialize (I3 c' Hc'). rewrite occupied_add_cons, Ec' in I3.
+             assert (keyclass_eqb (class_of c) (class_of c) = true) by now apply keyclass_eqb_eq.
+             rewrite H, orb_true_r in I3. discriminate. }
+           split.
+           { intros c' [<-|Hc']; [assumption|]. specialize (I3 c' Hc'). rewrite occupied_add_cons in I3.
+             apply orb_false_iff in I3. tauto. }
+           rewrite add_cons_eaves in I4. rewrite add_cons_owner in I5.
+           split; [exact I4|]. split; [exact I5|]. split.
+           { intros k. rewrite I6, occupied_add_cons. cbn [map existsb]. now rewrite orb_assoc. }
+           intros x. rewrite I7, (cons_add_cons r c x Eo). simpl. split; intros H; intuition (subst; auto).
+        -- destruct IH as [I|[I|[c' [I1 I2]]]].
+           ++ left. exact I.
+           ++ right. left. cbn [map classes_distinct]. rewrite I. apply andb_false_r.
+           ++ rewrite occupied_add_cons in I2. apply orb_true_iff in I2. destruct I2 as [I2|I2].
+              ** right. right. exists c'. split; [now right | assumption].
+              ** right. left. cbn [map classes_distinct].
+                 assert (existsb (keyclass_eqb (class_of c)) (map class_of (constraints_of ts)) = true) as ->.
+                 { apply existsb_keyclass. apply keyclass_eqb_eq in I2. rewrite <- I2. now apply in_map. }
+                 reflexivity.
+Qed.
+
+Lemma constraint_eqb_eq a b : constraint_eqb a b = true <-> a = b.
+Proof.
+  destruct a, b; simpl; try (split; congruence); try (rewrite bytes_eqb_eq; split; congruence).
+  - rewrite N.eqb_eq. split; congruence.
+  - rewrite !andb_true_iff, N.eqb_eq, argkind_eqb_eq, bytes_eqb_eq. split; [intros [[-> ->] ->]; reflexivity | intros E; inversion E; auto].
+Qed.
+
+Lemma subset_cons_incl a b : subset_cons a b = true <-> incl a b.
+Proof.
+  unfold subset_cons, incl. rewrite forallb_forall. split.
+  - intros H x Hx. specialize (H x Hx). apply existsb_exists in H. destruct H as [y [Hy E]]. apply constraint_eqb_eq in E. now subst.
+  - intros H x Hx. apply existsb_exists. exists x. split; [auto | now apply constraint_eqb_eq].
+Qed.
+
+(* The per-key checks accept exactly the item lists the specification accepts, and the accepted rule stands
+   for exactly the constraints (and the eavesdrop switch) the specification reads from the items. *)
+Theorem parse_tokens_spec c ts :
+  forallb item_in_scope ts = true ->
+  match parse_tokens (empty_rule c) ts with
+  | Some r => items_ok ts = true /\ srule_eqb (abs_rule r) (mkSRule c (eaves_of ts false) (constraints_of ts)) = true
+  | None => items_ok ts = false
+  end.
+Proof.
+  intros Hs. rewrite (parse_tokens_fold ts (empty_rule c) Hs).
+  pose proof (fold_spec_inv ts (empty_rule c)) as H.
+  destruct (fold_spec (empty_rule c) ts) as [r|].
+  - destruct H as (I1 & I2 & I3 & I4 & I5 & I6 & I7).
+    split.
+    + unfold items_ok. fold item_valid. rewrite I2, andb_true_r. exact I1.
+    + unfold srule_eqb. cbn [sr_owner sr_eaves sr_cons abs_rule].
+      rewrite I5, I4. cbn [empty_rule r_owner r_eaves]. rewrite N.eqb_refl, Bool.eqb_reflx. cbn [andb].
+      apply andb_true_iff. split; apply subset_cons_incl; intros x Hx.
+      * apply I7 in Hx. destruct Hx as [[]|Hx]. assumption.
+      * apply I7. now right.
+  - unfold items_ok. fold item_valid. destruct H as [H|[H|[c0 [_ H]]]].
+    + rewrite H. reflexivity.
+    + rewrite H. apply andb_false_r.
+    + exfalso. destruct (class_of c0) as [| | | | | |n]; simpl in H; try discriminate.
+      unfold arg_slot_taken in H. simpl in H. destruct (N.to_nat n); discriminate.
+Qed.
+
+(* ---- AddMatch / RemoveMatch argument -> rule, outside the known classes -------------------------------- *)
+
+Definition parse_agrees (c : N) (s : bytes) : Prop :=
+  match parse_rule c s, spec_parse c s with
+  | POk r, SPOk sr => srule_eqb (abs_rule r) sr = true
+  | PInvalid, SPInvalid | PLimits, SPLimits => True
+  | _, _ => False
+  end.
+
+Theorem parse_rule_spec c s ts e :
+  no_nul s -> bs_sensitive SItemStart s = false ->
+  spec_tokens s = (ts, e) -> e <> SEmptyKey -> (length ts < MAX_RULE_TOKENS)%nat ->
+  forallb item_in_scope ts = true ->
+  parse_agrees c s.
+Proof.
+  intros Hn Hb Hs He Hl Hsc. unfold parse_agrees, parse_rule, spec_parse. rewrite max_len_eq.
+  destruct (SPEC_MAX_RULE_LENGTH <? nlen s); [exact I|].
+  pose proof (tokenize_agrees s ts e Hn Hb Hs He Hl) as Ht. rewrite Hs.
+  destruct (tokenize s) as [toks|]; simpl in Ht.
+  - destruct e; try discriminate. inversion Ht as [Hp]. rewrite Hp.
+    pose proof (parse_tokens_spec c ts Hsc) as Hps.
+    destruct (parse_tokens (empty_rule c) ts) as [r|].
+    + destruct Hps as [Hok Heq]. rewrite Hok. exact Heq.
+    + rewrite Hps. exact I.
+  - destruct e; try discriminate; exact I.
+Qed.
